@@ -331,6 +331,13 @@ func histories(r *lib.Run, rng *lib.Rand) (files []savedFile) {
 		fname := tmpName()
 		sv := newServer(c, captured, fname)
 		b0 := construct(sv.s, c, fname)
+		if b0.h == nil && special == "nf-wider" {
+			// since /repo 7a8efa9 the constructor refuses a netfilter prefix wider than the home LAN; the model agrees
+			r.Do("new", c.tok(), capTok, "err")
+			r.Stat("hist.nf-wider-refused", 1)
+			sv.close()
+			continue
+		}
 		if b0.h == nil {
 			r.Viol("hist-construct-failed", "cannot construct a handler on a fresh file: "+b0.obs, "")
 			continue
